@@ -67,19 +67,24 @@ ITEM_PATTERNS = [["P"], ["P", "P"], ["P", "C"], ["P", "Q"], ["P", "L"], ["P", "L
 def list_docs(tier: str) -> Iterator[dict[str, Any]]:
     th = tier == "thorough"
     markers = ["-", "1.", "task", "3)"] if th else ["-", "1.", "task"]
+    markers3 = ["-", "1."]
     wraps = ["top", "quote", "footnote"] if th else ["top", "quote"]
     combos: list[tuple[list[str], ...]] = []
     for a in ITEM_PATTERNS:
         combos.append((a, ["P"]))
         combos.append((["P"], a))
     if th:
-        for a, b in itertools.product(ITEM_PATTERNS, ITEM_PATTERNS):
+        # three-item lists: all ordered pairs of the six basic item patterns
+        for a, b in itertools.product(ITEM_PATTERNS[:6], ITEM_PATTERNS[:6]):
             combos.append((a, b, ["P"]))
     seen = set()
     for items in combos:
-        for marker in markers:
+        for marker in (markers if len(items) == 2 else markers3):
             for loose in (False, True):
                 for wrap in wraps:
+                    extra = any(i in ITEM_PATTERNS[6:] for i in items)
+                    if not th and extra and (wrap != "top" or marker != "-"):
+                        continue  # the rarer item patterns: one marker, top level only, in the quick tier
                     key = f"list/{wrap}/{marker}/{'loose' if loose else 'tight'}/" + "|".join("".join(i) for i in items)
                     if key in seen:
                         continue
